@@ -10,6 +10,14 @@ snapshot probes bracket each model -- and the bucket contents before / after the
 NumPy-only oracles (section "oracles": no pyxel imports).  A ``sys.monitoring`` PY_RETURN spy
 on ``ipc_kernel`` records the weights that the real ``simple_ipc`` call convolved with.
 The numba kernels are also run with NUMBA_BOUNDSCHECK=1 and NUMBA_DISABLE_JIT=1 (M6).
+
+Two further input classes (added after independently seeded changes were missed):
+* the generated charge is held as *clusters* (the DataFrame form of the charge bucket used by the cosmic-ray
+  models) with a random history of public bucket operations -- add clusters / add an array, look at the charge
+  map, change number or position of some clusters in place, remove some -- before (and between) collections;
+  the charge that simple_collection must add is then computed by a NumPy oracle from the cluster table;
+* the CDM model runs on several detectors *at the same time* in a pool of threads (its kernels are compiled
+  ``nogil`` for exactly that use: dask's threaded scheduler); every call is judged on its own detector.
 """
 from __future__ import annotations
 
@@ -32,6 +40,9 @@ RULE = ("generated non-negative frames (zero, uniform, saturated, single hot pix
         "characteristics and map; fwc from argument and characteristics; IPC couplings up to c+d=0.25; CDM 1-5 "
         "species, beta/volume/period/fwc in range, parallel, serial, both, charge injection; persistence 1-5 species "
         "with/without capacities over 1-6 steps of a non-destructive readout) on 1x1..16x16 CCD/CMOS detectors; "
+        "charge held as an array or as clusters with a random history of add / look / in-place update / remove "
+        "operations, square and non-square pixels; CDM also on 2-4 detectors of up to 128x128 processed "
+        "concurrently by a pool of threads (same or different shape and parameter vector, several rounds); "
         "a case is non-trivial when an input frame holds a non-zero pixel; distinct = distinct (shard kind, "
         "detector, frame kinds, parameter vector) signatures")
 ASSUMPTIONS = [
@@ -44,6 +55,11 @@ ASSUMPTIONS = [
     "persistence: besides conservation, the amount trapped from empty traps must depend on detector.time_step "
     "(identical results for two different short steps = the step length is ignored)",
     "ValueError / TypeError / NotImplementedError raised by a model are counted as a refusal of the input, not as a violation",
+    "charge held as clusters: every cluster lies strictly inside the sensitive area (at least 5 % of a pixel away "
+    "from a pixel border) and belongs to the pixel it lies in; the cluster table is read through the public "
+    "Charge.frame accessor right before the collection; only electrons are generated",
+    "threads: every thread owns its detector (a detector is never shared); a call is judged by the same oracle as a "
+    "sequential call (no negative pixel, no more total charge than received)",
     "CDM parameter vectors keep max_electron_volume, full_well_capacity, release times, temperature and effective "
     "mass strictly positive (the formulas divide by them)",
 ]
@@ -53,7 +69,9 @@ REQUIRED_COUNTERS = ([f"judged:{m}" for m in MODELS] +
                      ["exposure_runs", "exposure_steps", "ipc_kernels_spied", "judged_boundscheck", "judged_nojit",
                       "cdm_changed_frame", "persist_trapping_steps", "persist_release_steps",
                       "persist_multi_species_steps", "timestep_pairs", "fullwell_idempotence_checks",
-                      "conversion_sampled", "conversion_unsampled", "collection_nonempty_pixel"])
+                      "conversion_sampled", "conversion_unsampled", "collection_nonempty_pixel",
+                      "collection_from_clusters", "collection_after_inplace_update", "collection_after_look_and_update",
+                      "cdm_concurrent_calls", "cdm_concurrent_same_layout"])
 TIMEOUT = {"quick": 900, "thorough": 3600}
 LEVEL_TEXT = ("Exploration by runtime monitoring: thousands (quick) to tens of thousands (thorough) of invocations of the "
               "real charge-handling model functions on real CCD/CMOS detectors, directly under the clock of a real "
@@ -76,8 +94,10 @@ def plan(tier, seed):
             spec["env"] = env
         specs.append(spec)
 
+    # charge held as clusters: reading the charge map compiles a kernel at every access (0.15 s), so only a small
+    # share of the jit-mode cases uses clusters; the bulk of them runs in an interpreter-mode shard (see below)
     for _ in range(3):
-        add("simple", 800 if q else 20000)
+        add("simple", 800 if q else 20000, clusters=0.008 if q else 0.003)
     for _ in range(3):
         add("cdm", 1200 if q else 40000, hi=12 if q else 16)
     add("cdm", 600 if q else 10000, {"NUMBA_BOUNDSCHECK": "1"}, hi=12 if q else 16)
@@ -88,6 +108,8 @@ def plan(tier, seed):
     add("persist", 100 if q else 2000, {"NUMBA_DISABLE_JIT": "1"}, hi=6)
     for _ in range(3 if q else 6):
         add("exposure", 40 if q else 500, hi=8)
+    add("pool", 120 if q else 2500, hi=128 if q else 256)
+    add("simple", 250 if q else 6000, {"NUMBA_DISABLE_JIT": "1"}, clusters=0.85)
     return specs
 
 
@@ -110,6 +132,19 @@ def orc_collection(pix_before, charge, pix_after):
     if bad.any():
         return "not-added", "pixel_after != pixel_before + charge " + _worst(bad, pix_before, charge, pix_after)
     return None
+
+
+def orc_cluster_map(shape, pitch_ver, pitch_hor, numbers, ver, hor):
+    """The charge per pixel that a table of clusters represents: each cluster (number of charges at a vertical /
+    horizontal position) belongs to the pixel it lies in.  None when a cluster lies outside the frame."""
+    numbers, ver, hor = (np.asarray(a, dtype=float) for a in (numbers, ver, hor))
+    rows = np.floor(ver / float(pitch_ver)).astype(int)
+    cols = np.floor(hor / float(pitch_hor)).astype(int)
+    if ((rows < 0) | (rows >= shape[0]) | (cols < 0) | (cols >= shape[1])).any() or not np.isfinite(numbers).all():
+        return None
+    out = np.zeros(shape)
+    np.add.at(out, (rows, cols), numbers)
+    return out
 
 
 def orc_conversion(charge_before, photons, qe, sampling, charge_after):
@@ -265,8 +300,10 @@ def rand_shape(rng, lo=1, hi=8):
     return rng.randint(lo, hi), rng.randint(lo, hi)
 
 
-def mk_detector(kind, shape, qe=0.9, fwc=100000.0, temperature=300.0):
+def mk_detector(kind, shape, qe=0.9, fwc=100000.0, temperature=300.0, pitch=None):
     spec = build.default_detector_spec(kind, shape[0], shape[1])
+    if pitch is not None:
+        spec["geometry"]["pixel_vert_size"], spec["geometry"]["pixel_horz_size"] = float(pitch[0]), float(pitch[1])
     spec["characteristics"]["quantum_efficiency"] = qe
     spec["characteristics"]["full_well_capacity"] = fwc
     spec["environment"]["temperature"] = temperature
@@ -385,7 +422,12 @@ def judge(ctx, model, params, before, after, index, mkcase, where="direct"):
     if model == "simple_collection":
         if before["pixel"].any():
             rec.count("collection_nonempty_pixel")
-        return verdict(ctx, model, orc_collection(before["pixel"], before["charge"], after["pixel"]), index, mkcase, where)
+        # the generated charge: the charge map, or - when the bucket holds clusters - what the cluster table says
+        held = params.get("held")
+        if held is not None:
+            rec.count("collection_from_clusters")
+        return verdict(ctx, model, orc_collection(before["pixel"], before["charge"] if held is None else held,
+                                                  after["pixel"]), index, mkcase, where)
     if model in ("simple_conversion", "conversion_with_qe_map"):
         rec.count("conversion_sampled" if params["sampling"] else "conversion_unsampled")
         return verdict(ctx, model, orc_conversion(before["charge"], before["photon"], params["qe"], params["sampling"],
@@ -553,19 +595,115 @@ def jl(a):
     return None if a is None else np.asarray(a).tolist()
 
 
+# --------------------------------------------------------------------------- charge held as clusters
+def clusters_held(det):
+    """Public read of the cluster table of the charge bucket -> (ids, numbers, ver, hor); None when it holds none."""
+    table = det.charge.frame
+    if len(table) == 0:
+        return None
+    return ([int(v) for v in table.index], np.array(table["number"], dtype=float),
+            np.array(table["position_ver"], dtype=float), np.array(table["position_hor"], dtype=float))
+
+
+def gen_clusters(rng, shape, pitch, ref, n):
+    """n clusters strictly inside the sensitive area (several may share a pixel)."""
+    ref = max(float(ref), 1.0)
+    spots = [(rng.randrange(shape[0]), rng.randrange(shape[1])) for _ in range(rng.randint(1, n))]
+    rows, cols = zip(*[rng.choice(spots) for _ in range(n)])
+    centred = rng.random() < 0.4
+    off = lambda: 0.5 if centred else rng.uniform(0.05, 0.95)   # noqa: E731
+    numbers = [rng.choice([float(rng.randint(1, 5000)), rng.random() * ref, ref, 0.5, 1e-3, 1.0, 250.0, 1e6]) for _ in range(n)]
+    return (np.array(numbers), np.array([(r + off()) * pitch[0] for r in rows]),
+            np.array([(c + off()) * pitch[1] for c in cols]))
+
+
+def cluster_history(ctx, rng, det, shape, pitch, ref, log, looked=False):
+    """A random history of public operations on the charge bucket of `det` (the things the charge-generation
+    models, the outputs and a recombination step do).  `looked`: the charge map was read since the last addition.
+    -> (looked, clusters were changed in place since the last addition, ... after the map had been read)."""
+    rec = ctx.rec
+    ch = det.charge
+    updated = looked_then_updated = False
+    for _ in range(rng.randint(1, 4)):
+        held = clusters_held(det)
+        if held is None:
+            op = rng.choice(["add", "add", "add_table", "look"])
+        else:
+            op = rng.choice(["add", "add_table", "add_array", "look", "look", "scale_all", "scale_some", "renumber",
+                             "move", "move", "remove", "remove", "remove_all"])
+        ids = held[0] if held else []
+        some = sorted(rng.sample(ids, rng.randint(1, max(1, len(ids) - 1)))) if ids else []
+        if op in ("add", "add_table"):
+            n = rng.randint(1, 6)
+            numbers, ver, hor = gen_clusters(rng, shape, pitch, ref, n)
+            kw = dict(particle_type="e", particles_per_cluster=numbers, init_energy=np.zeros(n),
+                      init_ver_position=ver, init_hor_position=hor, init_z_position=np.zeros(n),
+                      init_ver_velocity=np.zeros(n), init_hor_velocity=np.zeros(n), init_z_velocity=np.zeros(n))
+            if op == "add":
+                ch.add_charge(**kw)
+            else:
+                ch.add_charge_dataframe(ch.create_charges(**kw))
+            log.append([f"charge:{op}", {"number": jl(numbers), "ver": jl(ver), "hor": jl(hor)}])
+            looked = updated = looked_then_updated = False
+        elif op == "add_array":
+            arr = np.floor(gen_frame(rng, shape, ref, ["hot", "sparse", "randint", "uniform", "zero"])[1])
+            ch.add_charge_array(arr)
+            log.append([f"charge:{op}", {"array": jl(arr)}])
+            looked = updated = looked_then_updated = False
+        elif op == "look":
+            how = rng.choice(["array", "to_xarray"])
+            _ = ch.array if how == "array" else ch.to_xarray()
+            log.append([f"charge:{op}", {"how": how}])
+            looked = True
+        elif op in ("scale_all", "scale_some", "renumber"):
+            target = ids if op == "scale_all" else some
+            factor = rng.choice([0.5, 0.0, 0.9, 2.0, round(rng.random(), 3)])
+            current = dict(zip(ids, held[1].tolist()))
+            values = ([float(rng.randint(0, 3000)) for _ in target] if op == "renumber"
+                      else [current[k] * factor for k in target])
+            ch.set_frame_values(quantity="number", new_value_list=values,
+                                id_list=None if op == "scale_all" and ids == list(range(len(ids))) and rng.random() < 0.5
+                                else list(target))
+            log.append([f"charge:{op}", {"ids": target, "values": values}])
+            updated, looked_then_updated = True, looked_then_updated or looked
+        elif op == "move":
+            quantity = rng.choice(["position_ver", "position_hor"])
+            axis = 0 if quantity == "position_ver" else 1
+            values = [(rng.randrange(shape[axis]) + rng.uniform(0.05, 0.95)) * pitch[axis] for _ in some]
+            ch.set_frame_values(quantity=quantity, new_value_list=values, id_list=list(some))
+            log.append([f"charge:{op}", {"quantity": quantity, "ids": some, "values": values}])
+            updated, looked_then_updated = True, looked_then_updated or looked
+        elif op == "remove":
+            if len(ids) < 2:
+                continue
+            ch.remove_from_frame(id_list=list(some))
+            log.append([f"charge:{op}", {"ids": some}])
+            updated, looked_then_updated = True, looked_then_updated or looked
+        else:
+            if rng.random() < 0.7:     # rarely: nothing is left in the bucket
+                continue
+            ch.remove_from_frame()
+            log.append([f"charge:{op}", {}])
+            looked = updated = looked_then_updated = False
+        rec.observe("charge_bucket_operations", op)
+    return looked, updated, looked_then_updated
+
+
 # --------------------------------------------------------------------------- shard: simple models
-def case_simple(ctx, rng, i):
+def case_simple(ctx, rng, i, clusters=0.0):
     rec = ctx.rec
     kind = rng.choice(["ccd", "cmos", "cmos"])
     shape = rand_shape(rng, 1, 9)
     det_qe = gen_qe(rng)
     det_fwc = rng.choice([0.0, 1.0, 1e7, 100000.0, float(rng.randint(2, 5000)), round(10 ** rng.uniform(0, 7), 3)])
-    det, dspec = mk_detector(kind, shape, det_qe, det_fwc)
+    pitch = rng.choice([(10.0, 10.0), (10.0, 10.0), (18.0, 18.0), (6.5, 6.5), (15.0, 30.0), (27.0, 12.0), (1.0, 1.0)])
+    det, dspec = mk_detector(kind, shape, det_qe, det_fwc, pitch=pitch)
     det.set_readout(times=[1.0, 2.0], non_destructive=True)
     det.empty()
     set_clock(det, 0)
     ref = rng.choice([det_fwc, 1000.0, 50.0])
-    info = {"detector": kind, "shape": list(shape), "det_qe": det_qe, "det_fwc": det_fwc, "calls": []}
+    info = {"detector": kind, "shape": list(shape), "pixel_size": list(pitch), "det_qe": det_qe, "det_fwc": det_fwc,
+            "calls": []}
     frames = {}
 
     def mkcase():
@@ -615,11 +753,34 @@ def case_simple(ctx, rng, i):
         frames["pixel_before_collection"] = pix
         det.pixel.array = pix.copy()
         nontrivial |= bool(pix.any())
-    for _ in range(rng.choice([1, 1, 2])):
+    as_clusters = rng.random() < clusters     # the generated charge is held as clusters (with a history) or as an array
+    looked = False
+    for rep in range(rng.choice([1, 1, 2, 3] if as_clusters else [1, 1, 2])):
+        updated = looked_then_updated = False
+        if as_clusters:
+            try:
+                looked, updated, looked_then_updated = cluster_history(ctx, rng, det, shape, pitch, ref, info["calls"], looked)
+            except REFUSALS as exc:       # the bucket refused an operation: whatever it holds now is collected
+                rec.count("refused:charge_bucket_operation")
+                rec.observe("refusal_types", f"charge_bucket:{type(exc).__name__}")
         info["calls"].append(["simple_collection", {}, ""])
         before = snapshot(det)
+        params = {}
+        held = clusters_held(det)
+        if held is not None:
+            frames[f"clusters{rep}"] = np.column_stack(held[1:])
+            nontrivial |= bool(held[1].any())
+            params["held"] = orc_cluster_map(shape, pitch[0], pitch[1], *held[1:])
+            if params["held"] is None:
+                rec.count("clusters_outside_frame")      # not generated: left to the array view
+            else:
+                if updated:
+                    rec.count("collection_after_inplace_update")
+                if looked_then_updated:
+                    rec.count("collection_after_look_and_update")
+        looked = True       # the snapshot above has read the charge map
         if invoke(ctx, "simple_collection", i, mkcase, ctx.cc.simple_collection, det):
-            judge(ctx, "simple_collection", {}, before, snapshot(det), i, mkcase)
+            judge(ctx, "simple_collection", params, before, snapshot(det), i, mkcase)
     # ---- full well (on the collected charge or on a fresh frame; twice for idempotence)
     if rng.random() < 0.7:
         fk, pix = gen_frame(rng, shape, det_fwc if rng.random() < 0.7 else ref)
@@ -737,6 +898,100 @@ def case_cdm(ctx, rng, i, hi):
         if not judge(ctx, model, kw, before, snapshot(det), i, mkcase):
             break
     rec.case(("cdm", shape, fk, order, temperature, fwc, sorted(kw.items())), bool(frame.any()), sample=info)
+
+
+# --------------------------------------------------------------------------- shard: CDM in a pool of threads
+def case_pool(ctx, rng, i, hi):
+    """The model processes several detectors at the same time (one thread per detector, as dask's threaded
+    scheduler does with the parameter sets of an observation); every call is judged on its own detector."""
+    import threading
+    rec = ctx.rec
+    n_threads = rng.choice([2, 2, 3, 4])
+    rounds = rng.randint(2, 5)
+    big = rng.random() < 0.6        # long calls overlap for certain; short ones only now and then
+    lo = 24 if big else 2
+    top = hi if big else 24
+    same_layout = rng.random() < 0.75
+    common_shape = (rng.randint(lo, top), rng.randint(lo, top))
+    common_params = gen_cdm(rng)
+    directions = [rng.choice(["parallel", "serial"]) for _ in range(rounds)]
+    lanes = []
+    for t in range(n_threads):
+        shape = common_shape if same_layout or t == 0 else (rng.randint(lo, top), rng.randint(lo, top))
+        params, fwc = common_params if same_layout or t == 0 else gen_cdm(rng)
+        kw = {k: v for k, v in params.items() if k != "_style"}
+        kw["full_well_capacity"] = fwc
+        det, _ = mk_detector("ccd", shape, 0.9, 100000.0, rng.choice([273.15, 300.0, 80.0]))
+        det.set_readout(times=[1.0], non_destructive=False)
+        det.empty()
+        set_clock(det, 0)
+        fk, frame = gen_frame(rng, shape, fwc)
+        rec.observe("frame_kinds", fk)
+        order = directions if rng.random() < 0.8 else [rng.choice(["parallel", "serial"]) for _ in range(rounds)]
+        lanes.append({"det": det, "shape": shape, "kw": kw, "frame_kind": fk, "frame": frame, "order": order,
+                      "refill": rng.random() < 0.7, "results": []})
+    info = {"kind": "pool", "threads": n_threads, "rounds": rounds, "same_layout": same_layout,
+            "lanes": [{"shape": list(ln["shape"]), "frame_kind": ln["frame_kind"], "directions": ln["order"],
+                       "refill": ln["refill"], "arguments": ln["kw"]} for ln in lanes]}
+
+    def mkcase():
+        return {**info, "frames": [jl(ln["frame"]) if ln["frame"].size <= 4096 else
+                                   {"kind": ln["frame_kind"], "total": _fsum(ln["frame"])} for ln in lanes]}
+
+    barrier = threading.Barrier(n_threads)
+
+    def lane_main(ln):
+        det = ln["det"]
+        det.pixel.array = ln["frame"].copy()
+        for rnd, direction in enumerate(ln["order"]):
+            error = before = after = None
+            try:
+                if ln["refill"] and rnd:
+                    det.pixel.array = ln["frame"].copy()     # a new exposure of the same scene
+                before = snapshot(det)
+            except Exception as exc:  # noqa: BLE001 - reported by the main thread
+                error = exc
+            try:
+                barrier.wait(timeout=120)
+            except threading.BrokenBarrierError:
+                pass
+            if error is None:
+                try:
+                    ctx.ct.cdm(det, direction=direction, **ln["kw"])
+                    after = snapshot(det)
+                except Exception as exc:  # noqa: BLE001 - classified by the main thread (invoke)
+                    error = exc
+            ln["results"].append((direction, before, after, error))
+
+    threads = [threading.Thread(target=lane_main, args=(ln,), daemon=True) for ln in lanes]
+    for th in threads:
+        th.start()
+    for th in threads:
+        th.join(timeout=600)
+    if any(th.is_alive() for th in threads):
+        raise RuntimeError("harness: a pool thread did not finish within 600 s")
+    # ---- the main thread judges what each thread observed on its own detector
+    for t, ln in enumerate(lanes):
+        for rnd, (direction, before, after, error) in enumerate(ln["results"]):
+            model = f"cdm_{direction}"
+
+            def outcome(error=error):
+                if error is not None:
+                    raise error
+
+            if not invoke(ctx, model, i, mkcase, outcome):
+                break
+            rec.count("cdm_concurrent_calls")
+            if same_layout:
+                rec.count("cdm_concurrent_same_layout")
+            rec.observe("cdm_modes", f"{direction}:{'inj' if ln['kw']['charge_injection'] else 'noinj'}:pool")
+            if not judge(ctx, model, ln["kw"], before, after, i, mkcase,
+                         where=f"thread {t} of {n_threads}, round {rnd}"):
+                break
+    rec.observe("pool_sizes", n_threads)
+    rec.case(("pool", n_threads, rounds, same_layout, [(ln["shape"], ln["frame_kind"], ln["order"], sorted(ln["kw"].items()))
+                                                       for ln in lanes]),
+             any(bool(ln["frame"].any()) for ln in lanes), sample=info)
 
 
 # --------------------------------------------------------------------------- shard: persistence
@@ -981,13 +1236,15 @@ def run_shard(spec, rec):
             continue
         rng = rec.rng(i)
         if kind == "simple":
-            case_simple(ctx, rng, i)
+            case_simple(ctx, rng, i, float(spec.get("clusters", 0.0)))
         elif kind == "cdm":
             case_cdm(ctx, rng, i, hi if i % 3 == 0 else min(hi, 8))
         elif kind == "persist":
             case_persist(ctx, rng, i, hi)
         elif kind == "exposure":
             case_exposure(ctx, rng, i, hi)
+        elif kind == "pool":
+            case_pool(ctx, rng, i, hi)
         else:
             raise RuntimeError(f"unknown shard kind {kind}")
 
